@@ -67,6 +67,37 @@ LIB_RAISES = {
     'microversion_parse.parse_version_string': ('TypeError',),
 }
 
+def _made_total(call, dotted):
+    """uuid.UUID(x) inside the body of ``if <..>is_uuid_like(x):`` cannot
+    raise (the test is UUID(x) succeeding)."""
+    if dotted != 'uuid.UUID' or not call.args:
+        return False
+    arg = ast.unparse(call.args[0])
+    child = call
+    cur = getattr(call, '_parent', None)
+    while cur is not None and not isinstance(cur, (ast.FunctionDef,
+                                                   ast.Lambda)):
+        if isinstance(cur, ast.If) and any(
+                child is x or _contains(x, child) for x in cur.body):
+            t = cur.test
+            if isinstance(t, ast.Call) and ast.unparse(t.func).endswith(
+                    'is_uuid_like') and t.args and ast.unparse(
+                        t.args[0]) == arg:
+                return True
+        child = cur
+        cur = getattr(cur, '_parent', None)
+    return False
+
+
+def _contains(anc, node):
+    cur = node
+    while cur is not None:
+        if cur is anc:
+            return True
+        cur = getattr(cur, '_parent', None)
+    return False
+
+
 SELFATTR = 'selfattr:'      # symbolic marker prefix
 STATUS_MAP = 'webob.exc.status_map[]'
 
@@ -200,7 +231,8 @@ class Raises(object):
                 elif d.qname == 'placement.microversion.version_handler':
                     out.add(STATUS_MAP)
         d = site.dotted
-        if site.kind in ('builtin', 'external') and d in LIB_RAISES:
+        if site.kind in ('builtin', 'external') and d in LIB_RAISES and \
+                not _made_total(call, d):
             out |= set(LIB_RAISES[d])
         return out
 
